@@ -136,10 +136,10 @@ IRRELEVANT_TIES = {
 
 
 # translators whose --ties mode has a --field variant (tie re-proved under the ordered-field laws only)
-FIELD_MODE = {"gen_brain.py"}
+FIELD_MODE = {"gen_brain.py", "gen_src.py", "gen_poisson.py", "gen_conv.py", "gen_peak.py", "gen_comp.py"}
 
 
-TIES_MODE = {"gen_peak.py", "gen_espec.py", "gen_formula.py", "gen_comp.py", "gen_render.py", "gen_cbind.py", "gen_brain.py", "gen_element.py", "gen_props.py"}
+TIES_MODE = {"gen_src.py", "gen_poisson.py", "gen_conv.py", "gen_peak.py", "gen_espec.py", "gen_formula.py", "gen_comp.py", "gen_render.py", "gen_cbind.py", "gen_brain.py", "gen_element.py", "gen_props.py"}
 
 
 def source_tie(run, parts=("mz",)):
@@ -186,9 +186,9 @@ def source_tie(run, parts=("mz",)):
                     outside = [f for f in failed if irr and re.match(irr, f)]
                     failed = [f for f in failed if f not in outside]
                     status = "mismatch" if failed else ("field-level" if field_ok else "unavailable")
-                    detail = ("tie lemmas that no longer hold: %s" % ", ".join(failed)) if failed else ("skipped (outside the subset): %s" % ", ".join(skipped))
+                    detail = ("tie lemmas that no longer hold: %s" % ", ".join(failed)) if failed else (("skipped (outside the subset): %s" % ", ".join(skipped)) if skipped else "")
                     if field_ok:
-                        detail += "; ties that no longer hold bit for bit but are re-proved over every ordered field: %s" % ", ".join(field_ok)
+                        detail += ("; " if detail else "") + "ties that no longer hold bit for bit but are re-proved over every ordered field: %s" % ", ".join(field_ok)
                     if outside:
                         detail += "; tie lemmas that no longer hold but concern functions outside %s: %s" % (run.prop, ", ".join(outside))
                 else:
